@@ -189,7 +189,10 @@ def applyOp (valid : Name → Bool) (rules : List Rule) : Op → Except DomErr (
     | .ok x => .ok x.rules
     | .error e => .error e
   | .insertCharsetNamed n i o =>
-    if n = [] then .error .syntaxErr                    -- `CSSCharsetRule()` is not well-formed: 'Invalid rules cannot be added.'
+    if n = [] then
+      -- `CSSCharsetRule()` is not well-formed: the index is checked first (:589-596), then
+      -- 'Invalid rules cannot be added.' (:643-645)
+      if i.getD rules.length > rules.length then .error .indexSizeErr else .error .syntaxErr
     else if valid n then
       match insertRule rules (.charset (lower n)) i o with
       | .ok x => .ok x.rules
